@@ -78,9 +78,23 @@ def with_common(which, path, *args):
             m.common = old
 
 
+# the recorded leak sites: (decoder, value seen under the C module) — anything else is a new violation
+LEAK_SITES = {("pyModeS.adsb.typecode", "-1"), ("pyModeS.surv.altitude", "-999999"), ("pyModeS.surv.altitude", "-1"),
+              ("pyModeS.adsb.altitude", "-1")}
+
+
 def k_decoder_sentinel(rec):
     i = rec.get("info") or {}
-    return bool(i.get("sentinel_leak"))
+    if i.get("stream") != "D":
+        return False
+    path = rec["real"][1][1]
+    if (path, rec["got"]) in LEAK_SITES:
+        return True
+    # is60's `alt is not None` test sees -999999: is60 / infer may differ for DF20 replies whose altitude code is 0
+    if path in ("pyModeS.commb.is60", "pyModeS.bds.infer"):
+        m = rec["real"][1][2]
+        return (int(m[:2], 16) >> 3) == 20 and (int(m, 16) >> 80) & 0x1FFF == 0
+    return False
 
 
 KNOWN = {"C15-sentinel-leak": k_decoder_sentinel}
